@@ -63,6 +63,17 @@ Definition lexemes_of (input : list N) (toks : list token) : list (list N) :=
   | o :: os => slices (skipn (N.to_nat o) input) o os
   end.
 
+(* the input that remains after each of consecutive pieces of rest *)
+Fixpoint rests (rest : list N) (pieces : list (list N)) : list (list N) :=
+  match pieces with
+  | [] => []
+  | x :: xs => let r := skipn (List.length x) rest in r :: rests r xs
+  end.
+
+(* the rune after a lexeme, if any, does not satisfy pred *)
+Definition next_not (pred : N -> bool) (r : list N) : Prop :=
+  match r with [] => True | d :: _ => pred d = false end.
+
 (* ---------- what a token says about its lexeme ---------- *)
 
 (* the runes Lexer.Next decides on before it asks isLetter / isDigit *)
@@ -98,4 +109,13 @@ Section Spec.
                            Forall (fun r => num_char r = true) ds
     | ty => t_lit t = [] /\ x = tt_format ty     (* operators, delimiters, NL, keywords *)
     end.
+
+  (* maximal munch: t is a token whose lexeme is followed by r in the input.
+     Whitespace, numbers, identifiers / keywords and comments extend as far as
+     their character class does. *)
+  Definition maximal_munch (t : token) (r : list N) : Prop :=
+    (t_type t = T_WS -> next_not is_hws r) /\
+    (t_type t = T_NUM_LIT -> next_not num_char r) /\
+    (t_type t = T_IDENT \/ In (t_type t) (map snd keywords) -> next_not (ident_char uni_letter uni_digit) r) /\
+    (t_type t = T_COMMENT -> next_not (comment_char nul_is_eof) r).
 End Spec.
